@@ -285,7 +285,12 @@ func (w *world) submit(kind, arg string) error {
 			fin(statusOf(err), acc)
 		}()
 	case "LIST":
-		cmd := w.cl.List("", "*", nil)
+		var cmd *imapclient.ListCommand
+		if arg == "ref" {
+			cmd = w.cl.List("A", "%", nil)
+		} else {
+			cmd = w.cl.List("", "*", nil)
+		}
 		go func() {
 			l, err := cmd.Collect()
 			acc := accT{}
